@@ -192,6 +192,30 @@ def fresh_process_digests(jobs, hashseed):
     return json.loads(p.stdout)
 
 
+def process_side_effects(V):
+    """C14 `free of side effects`, at process level: once an object has run (once or twice), a FRESH object built afterwards returns what it
+    returns in a fresh process.  Every ordered pair of the objects of c15.FRESH_PROGS (RegexSerDe script, TBLPROPERTIES, strict mode, dialect
+    clauses, debug / log level ...), each history in its own interpreter."""
+    objs = sorted(c15.FRESH_PROGS)
+    solo = {o: c15._fresh_task([["construct", o], ["run", o]]) for o in objs}
+    hs = [[["construct", a], ["run", a]] + ([["run", a]] if (i + j) % 2 else []) + [["construct", b], ["run", b], ["run", b]]
+          for i, a in enumerate(objs) for j, b in enumerate(objs) if a != b]
+    res = C.pool().map(c15._fresh_task, hs, 1)
+    for ops, out in zip(hs, res):
+        b = ops[-1][1]
+        if "error" in out or "error" in solo[b]:
+            V.mismatch({"kind": "process-level side effect", "problem": "the interpreter died / an exception escaped", "history": [f"{x}({o})" for x, o in ops],
+                        "error": str(out.get("error") or solo[b].get("error"))[-300:]})
+            continue
+        for i, r in enumerate(out[b]):
+            if r != solo[b][b][0]:
+                V.mismatch({"kind": "process-level side effect", "problem": "a fresh object built after another object has run does not return what it returns in a fresh process",
+                            "history": [f"{x}({o})" for x, o in ops], "object": b, "run": i + 1, "script": c15.FRESH_PROGS[b][0], "flags": c15.FRESH_PROGS[b][1],
+                            "expected_fresh_process": c15._short(solo[b][b][0]), "observed": c15._short(r)})
+                break
+    return len(hs)
+
+
 def run(tier, seed):
     t0 = time.time()
     rnd = random.Random(seed)
@@ -222,6 +246,7 @@ def run(tier, seed):
     cov["negative_controls"] = ["ResetSet={} refutes Repeatable", "ResetSet without 'statement' refutes Repeatable",
                                 "ResetSet without 'comments' refutes NoAliasing"]
 
+    cov["process_level_histories"] = process_side_effects(V)
     # ---- 2. generation: all call histories of one object ----------------------------------------
     g = c15.mc(c15.consts(["a"], 1, 3, 0, gran="call", args=argn, hist=True, leaves=allacc), "C14 generation 1 object")
     hists = []
